@@ -7,6 +7,11 @@ ALL = ["C%02d" % i for i in range(1, 21)]
 
 # property -> (category, technique, text, note, design_ref)
 CHECKS = {
+ "C01": ("model_checking",
+   "bounded exhaustive exploration of every (n, k, features, target shape, storage kind) with iter_fold stepped as a state machine in lock-step with a reference k-fold on a Vec of tagged rows; fault enumeration over every (model, fold) fit / eval error",
+   "Every n <= 12/30 with every 2 <= k <= n, 1-3 features, 1-d and 2-d (1-3 column) targets, owned / view / strided / column-major storage, f64 and f32/u32: fold() pairs against the reference blocks and complements; iter_fold observed through the closure's training view, the yielded validation view and the final buffer at every step (reference buffer permuted in lock-step; dataset must be bit-identical afterwards, also when the iterator is dropped early); cross_validate / cross_validate_single with 1-3 mock models implementing the real Fit / PredictInplace traits, four evaluation closures and an injected fit or eval error at every (model, fold): scores == hand-rolled mean over the reference folds, errors surface as themselves, dataset restored in every outcome.",
+   "Bounded: n <= 30. The order of fold()'s training rows is counted, not judged (the statement fixes only the multiset). Degenerate k (0, 1, > n) is recorded without verdict beyond the documented panics.",
+   "DESIGN.md 3.2, 4/C01"),
  "C08": ("exploration",
    "bounded exhaustive enumeration of point sets x min_points x boundary / midpoint tolerances x metrics x the three neighbour indices against the DBSCAN / OPTICS definitions",
    "Every row order of every 1-D multiset (<=5/6 values), every subset and ordered selection of 3x3-lattice points, generic-position images, 2x2 duplicates, cube corners, sets above the default leaf size (n = 17..20), bridge families and zero-feature matrices; min_points 2..5; tolerances at every midpoint between distinct inter-point distances (class A) and exactly at each distance (class B, decided only where exact arithmetic decides it); L1/L2/Linf; all three indices compared bit-for-bit. Oracle: core / border / noise / component structure recomputed from an f64 distance table with the open ball, OPTICS permutation + core-distance + reachability-explanation conditions of the statement.",
